@@ -17,6 +17,12 @@ struct Tr<'u> {
     req_ignore_assign: Vec<String>,
     /// effect_list: which argument of the recorded call is the value (`of: {"arg": i}`; None: the call's only argument)
     effect_arg: Option<usize>,
+    /// effect_list: the recorded value is the tuple of these arguments (`of: {"args": [i, j]}`)
+    effect_args: Option<Vec<usize>>,
+    /// Some: `e?` inside the expression being translated is allowed (every `?` of it is in a position that is evaluated
+    /// whenever the expression is): each becomes a fresh name bound by a match hoisted in front of the expression
+    /// (name, the Result-valued expression), in evaluation order
+    try_slots: Option<Vec<(String, G)>>,
 }
 
 fn norm(ts: impl ToTokens) -> String {
